@@ -19,6 +19,7 @@ import traceback
 
 VERIF = os.path.dirname(os.path.dirname(os.path.abspath(__file__)))
 REPO = os.environ.get('VERIF_REPO', '/repo')
+OUT = os.environ.get('VERIF_OUT', VERIF)   # the self-test redirects evidence/replays of scratch runs
 
 GENERIC_ASSUMPTIONS = [
     "pyvc (the symbolic executor and its numpy shim) is trusted; guarded by canaries, the vacuity check, the CPython "
@@ -88,7 +89,8 @@ def run_property(prop, tier, seed, only=None, jobs=None):
     from pyvc import contract as C
     mod = importlib.import_module('contracts.' + prop)
     meta = getattr(mod, 'META', {})
-    cdefs = [c for c in C.REGISTRY.get(prop, []) if not only or only in c.name]
+    cdefs = [c for c in C.REGISTRY.get(prop, []) if (not only or only in c.name)
+             and (tier == 'thorough' or c.tier == 'quick')]
     n_cross = int(os.environ.get('VERIF_CROSS', '25' if tier == 'quick' else '400'))
     tasks = [(prop, c.name, tier, seed, n_cross) for c in cdefs]
     jobs = jobs or min(16, max(1, len(tasks)))
@@ -104,8 +106,8 @@ def run_property(prop, tier, seed, only=None, jobs=None):
 def summarize(prop, tier, seed, meta, results, wall, quiet=False):
     known = _load_json(os.path.join(VERIF, 'known_findings.json'), {'findings': []})['findings']
     baseline = _load_json(os.path.join(VERIF, 'baseline_obligations.json'), {}).get(prop, None)
-    os.makedirs(os.path.join(VERIF, 'replays'), exist_ok=True)
-    os.makedirs(os.path.join(VERIF, 'evidence'), exist_ok=True)
+    os.makedirs(os.path.join(OUT, 'replays'), exist_ok=True)
+    os.makedirs(os.path.join(OUT, 'evidence'), exist_ok=True)
 
     lines = []
     violations, known_hits, undecided, broken = [], [], [], []
@@ -202,7 +204,7 @@ def summarize(prop, tier, seed, meta, results, wall, quiet=False):
 
     code = 0
     for name, rep, suffix in violations:
-        path = os.path.join(VERIF, 'replays', "%s-%s.json" % (prop, _san(name.split('/', 1)[1])))
+        path = os.path.join(OUT, 'replays', "%s-%s.json" % (prop, _san(name.split('/', 1)[1])))
         with open(path, 'w') as f:
             json.dump(rep, f, indent=1, default=str)
         lines.append("VIOLATION property=%s replay=%s%s" % (prop, path, suffix))
@@ -245,7 +247,7 @@ def summarize(prop, tier, seed, meta, results, wall, quiet=False):
         'wall_s': round(wall, 2),
         'violations': len(violations),
     }
-    with open(os.path.join(VERIF, 'evidence', prop + '.json'), 'w') as f:
+    with open(os.path.join(OUT, 'evidence', prop + '.json'), 'w') as f:
         json.dump(ev, f, indent=1, default=str)
     if not quiet:
         print("%s tier=%s: %d contracts, %d paths, %d VCs; obligations %d/%d discharged, bounded %d/%d, %d canaries refuted, "
